@@ -478,17 +478,31 @@ def run_case(case):
                 store = None
                 gc.collect()
             if case['read'] == 'append':
-                store = _open(TrajectoryStore.append, vio, base_file=base_p, associated_files=open_assoc or None)
+                # tiny cache: what was added in this session is read back from the files while the
+                # session is still open
                 # in an append session every field set travels inside the trajectory
                 in_traj_saved = in_traj
                 in_traj = list(range(nfs))
                 for k in range(n_first, ntr):
-                    tr = case['trajs'][k]
                     try:
                         trajs[k] = build(k)
                     except Exception as ex:  # noqa: BLE001
                         vio.append(V(f'assign-raised:{type(ex).__name__}', f'building trajectory #{k}: {type(ex).__name__}: {str(ex)[:300]}'))
                         raise _Stop from None
+                # room for exactly one complete trajectory (all field sets)
+                full = [trajs[k].nbytes for k in range(n_first, ntr)] or [cache_b]
+                probe = _open(TrajectoryStore.open, vio, base_file=base_p, associated_files=open_assoc or None)
+                try:
+                    full += [probe[i].nbytes for i in range(len(probe))]
+                except Exception:  # noqa: BLE001  (judged by the reads below, not here)
+                    pass
+                probe.close()
+                probe = None
+                gc.collect()
+                tiny_a = (max(full) + 8) / (1024.0 * 1024.0)
+                store = _open(TrajectoryStore.append, vio, base_file=base_p, associated_files=open_assoc or None, cache_size_mb=tiny_a)
+                for k in range(n_first, ntr):
+                    tr = case['trajs'][k]
                     before = len(stored)
                     try:
                         i = store.add(trajs[k])
@@ -511,6 +525,9 @@ def run_case(case):
                         vio.append(v)
                         raise _Stop from None
                 in_traj = in_traj_saved
+                vio += _read_all(case, store, stored, models, list(range(nfs)), fsets, fnames, fs_names, 'in append session', file_species)
+                if vio:
+                    raise _Stop
                 store.close()
                 store = None
                 gc.collect()
